@@ -386,17 +386,33 @@ def _compare_exact(real, out, with_ids=False, native_sets=False):
 
 def run_cases(ctx, casefn, count, label, with_ids=False, native_sets=False):
     drv = core.Driver()
-    cases = [casefn(ctx.rng) for _ in range(count)]
+    cases, states = [], []
+    for _ in range(count):
+        states.append(ctx.rng.getstate())
+        cases.append(casefn(ctx.rng))
     outs = drv.run([c[1] for c in cases])
-    for (real, line, desc), out in zip(cases, outs):
+    for (real, line, desc), out, st in zip(cases, outs, states):
         ctx.count(label + (":err:" + real[1] if real[0] == "err" else ":ok"))
         d = compare(real, out, with_ids, native_sets)
+        if real[0] == "err" and (out.startswith("(prog") or out.startswith("(res")):
+            # the real call raises on a call for which the model (whose totality is a theorem) returns a program: that call IS a
+            # concrete failing input of the real code, whatever the search finds later
+            if not hasattr(ctx, "concrete"):
+                ctx.concrete = []
+            ctx.concrete.append(core.Finding(
+                "raises:%s:%s" % (label, real[1]),
+                "%s raises %s; the documented behaviour (model + totality theorem) is to post the constraints" % (desc, real[1]),
+                {"kind": "graphcorr", "casefn": casefn.__name__, "rng_state": [st[0], list(st[1]), st[2]], "call": desc}))
         nontriv = real[0] == "ok" and len(real[1]) > 40
         ctx.case({"call": desc, "program": (real[1][:300] if real[0] == "ok" else real[1])}, line if nontriv else None)
         if d is not None:
             ctx.disagree("program:" + label, call=desc, real=d[0][:3000], model=d[1][:3000], line=line[:2000])
     if ALPHA_MATCHES[0]:
         ctx.extra["programs_equal_only_up_to_renaming_of_auxiliary_variables"] = ALPHA_MATCHES[0]
+
+
+def case_path(rng):
+    return case_cycle(rng, True)
 
 
 def case_frame_cycle(rng):
@@ -508,3 +524,16 @@ def case_vgroups_shape(rng):
     real = graphs.capture(build)
     line = sx(["vgroups", n, graphs.grid_edges(H, W), st.get("gs", "none"), n])
     return real, line, {"fn": "variable_groups(shape inferred)", "H": H, "W": W}
+
+
+def replay_case(data):
+    """Re-generate a stored correspondence case from the PRNG state it was drawn with and run the real call again."""
+    import random
+    rng = random.Random()
+    st = data["rng_state"]
+    rng.setstate((st[0], tuple(st[1]), st[2]))
+    fn = globals()[data["casefn"]]
+    real, line, desc = fn(rng)
+    if real[0] == "err":
+        return core.Finding("raises:replay", "%s still raises %s" % (desc, real[1]), data)
+    return None
